@@ -155,8 +155,10 @@ def claim_conflicts(case):
 
 
 def stale_claimant_signature(case, kind, viol=None):
-    """F1/F2 input class: some partition is claimed with different generations and a
-    lower-generation claimant is not subscribed to its topic (F2) / the run crashed (F1)."""
+    """input class of the defects fixed by /repo c41f241 (regression signatures, no longer
+    listed as known): some partition is claimed with different generations and a
+    lower-generation claimant is not subscribed to its topic (invalid result) / the run crashed /
+    the balanced state was discarded."""
     conf = claim_conflicts(case)
     subs = {m: set(s) for m, s in case["members"]}
     if not conf:
@@ -454,10 +456,7 @@ def check_sticky(ck, case, st, tally, streams, origin, prop="C14"):
     tally.ok("sticky:returned==executor-final",
              sorted(map(tuple, triples_of_out(out))) == sorted(map(tuple, st["final"])),
              {"case": case, "out": out, "final": st["final"]})
-    # F2 path taken (possibly transiently): some executed move targets a member that is not
-    # subscribed to the moved partition's topic -> the run is by construction not a StickyAbs run
-    subs = {m: set(s_) for m, s_ in case["members"]}
-    off_path = known_invalid or any(r[3] not in subs.get(r[2], ()) for r in st["reassigns"])
+    off_path = False
     streams.append((enc_kind1(case, st), ("k1", case, st, not bad, not kb, not mon_within_one(case, out),
                                            off_path)))
     return out
@@ -566,7 +565,7 @@ def run(ck: Check):
         "harness/c14.py encoders/decoders of the case streams, harness/impl/c14_impl.py wrappers recording the sticky op log (monkeypatching StickyAssignmentExecutor._assign_partition/_reassign_partition_to_consumer/_move_partition/_get_balance_score/balance/__init__)",
         "StubCluster (topics(), partitions_for_topic()) stands for ClusterMetadata; partitions of a topic are 0..n-1",
         "member/topic names are zero padded so that string order = numeric order (the models sort numerically)",
-        "StickyCtl abstracts the visiting order of partitions (sorted_partitions) and set iteration order; with conflicting generation claims the revert decision is taken from the observation",
+        "StickyCtl abstracts the visiting order of partitions (sorted_partitions) and set iteration order",
     ]
     ck.cov["rule"] = (
         "exhaustive: every (layout, members) with <= 3 topics x (no metadata | 0..4 partitions) x <= 3 members (thorough: 4) "
@@ -653,25 +652,6 @@ def run(ck: Check):
             hist["sticky-reverted" if st.get("reverted") else "sticky-not-reverted"] += 1
             hist["prev-nonempty" if st.get("prev") else "prev-empty"] += 1
     ck.extra["random_histogram"] = dict(hist)
-    # the witness of c14_sticky_valid_full_refuted is what the real executor does on corpus case 0
-    # — as long as the finding reproduces (after a fix of /repo it no longer does)
-    if corpus:
-        w = next((rr for j, r in zip(jobs, res) for case, rr in zip(j, r) if case is corpus[0]), None)
-        st = (w or {}).get("sticky") or {}
-        if "out" in st and mon_valid(corpus[0], st["out"]):
-            ck.obligation("witness:c14_sticky_valid_full_refuted-log==real-log",
-                          st.get("assigns") == [[1, 0, 1]] and st.get("reassigns") == [[0, 0, 1, 0, 0], [0, 1, 2, 0, 1]]
-                          and st.get("reverted") == 0, json.dumps(st)[:300])
-        else:
-            ck.log("note: the known validity finding no longer reproduces on corpus/C14/stale_claimant.json")
-            ck.extra["known_finding_reproduces"] = False
-        if len(corpus) > 2:
-            w = next((rr for j, r in zip(jobs, res) for case, rr in zip(j, r) if case is corpus[2]), None)
-            st = (w or {}).get("sticky") or {}
-            if "out" in st and mon_kip54(corpus[2], st["out"]):
-                ck.obligation("witness:c14_sticky_balanced_any_prev_refuted-log==real-log",
-                              st.get("assigns") == [] and st.get("reassigns") == [[0, 1, 3, 0, 1]]
-                              and st.get("reverted") == 1, json.dumps(st)[:300])
     if have_runner:
         results = run_ocaml([s for s, _ in streams])
         settle(ck, tally, streams, results, "ocaml")
